@@ -103,8 +103,10 @@ func (eis *EVMIndexerService) OnStart() error {
 	}
 	if lastIndexedBlock == -1 {
 		lastIndexedBlock = latestBlock
-	} else if lastIndexedBlock < status.SyncInfo.EarliestBlockHeight {
-		lastIndexedBlock = status.SyncInfo.EarliestBlockHeight
+	} else if lastIndexedBlock < status.SyncInfo.EarliestBlockHeight-1 {
+		// blocks below the earliest available one have been pruned and can not be indexed any more;
+		// continue with the earliest available block itself (indexing resumes at lastIndexedBlock + 1).
+		lastIndexedBlock = status.SyncInfo.EarliestBlockHeight - 1
 		// Kinda unsafe, but we don't have a better way to do this.
 		// In-case `EarliestBlockHeight` is zero one some nodes, it will be handled by the failure tracker with threshold.
 	}
